@@ -245,6 +245,76 @@ def build_corr(outdir=None):
     return rc == 0, out, dt
 
 
+def build_corr_min(prop, work, full_log):
+    """Property-minimal harness build, tried when the full harness does not build: only the Go files of
+    harness/cmd/corr (and only the overlay files) that the suites of `prop` need, found by closing over the
+    compiler's "undefined" errors.  A harness file or overlay hook of ANOTHER property that no longer compiles
+    against REPO (a changed signature, a sliced function that changed shape) then does not stop this property's
+    check.  Returns (ok, log)."""
+    global CORR
+    cfg = P.PROPS[prop]
+    src_dir = os.path.join(HARNESS, "cmd", "corr")
+    files = {fn: open(os.path.join(src_dir, fn)).read() for fn in os.listdir(src_dir) if fn.endswith(".go") and not fn.endswith("_test.go")}
+    ov_all = json.load(open(os.path.join(work, "overlay.json")))["Replace"]
+    ov_src = {k: open(v).read() for k, v in ov_all.items()}
+    num = prop[1:]
+    sel = {"main.go"} | {fn for fn in files if fn.startswith("c%s_" % num)}
+    for s_ in cfg["suites"]:
+        for fn, t in files.items():
+            if re.search(r'Name:\s*"%s"' % re.escape(s_[0]), t):
+                sel.add(fn)
+    ovsel = {}
+    mind = os.path.join(work, "minh")
+    log = ["full harness build failed; trying the property-minimal build for %s" % prop]
+
+    def defines(text, ident):
+        return re.search(r'^(func|type|var|const)\s+%s\b|^func\s+\([^)]*\)\s+%s\b|^\s+%s\s*(=|,|\s+[\w\[\*\.])' % (ident, ident, ident), text, re.M) is not None
+
+    out = ""
+    for it in range(60):
+        shutil.rmtree(mind, ignore_errors=True)
+        os.makedirs(os.path.join(mind, "cmd", "corr"))
+        for fn in sel:
+            shutil.copyfile(os.path.join(src_dir, fn), os.path.join(mind, "cmd", "corr", fn))
+        shutil.copyfile(os.path.join(work, "go.mod"), os.path.join(mind, "go.mod"))
+        shutil.copyfile(os.path.join(work, "go.sum"), os.path.join(mind, "go.sum"))
+        ovp = os.path.join(mind, "overlay.json")
+        json.dump({"Replace": ovsel}, open(ovp, "w"), indent=1)
+        target = os.path.join(work, "corr")
+        rc, out, dt = sh(["go", "build", "-modfile", os.path.join(mind, "go.mod"), "-tags", "verif", "-overlay", ovp, "-o", target, "./cmd/corr"], cwd=mind, env=goenv(), timeout=1800)
+        if rc == 0:
+            # worker subcommands are reached through a child process ("corr <name>"), not through a symbol:
+            # a selected file that names a registered worker needs the file that implements it
+            wadded = False
+            for fn, t in files.items():
+                if fn in sel:
+                    continue
+                for w in re.findall(r'registerWorker\("(\w+)"', t):
+                    if any(('"%s"' % w) in files[g] for g in sel):
+                        sel.add(fn)
+                        wadded = True
+            if wadded:
+                continue
+            CORR = target
+            log.append("minimal build ok after %d round(s): %d of %d harness files, %d of %d overlay files" % (it + 1, len(sel), len(files), len(ovsel), len(ov_all)))
+            return True, "\n".join(log)
+        added = False
+        idents = set(re.findall(r'undefined: (?:\w+\.)?(\w+)', out)) | set(re.findall(r'has no field or method (\w+)\)', out))
+        for ident in idents:
+            for fn, t in files.items():
+                if fn not in sel and defines(t, ident):
+                    sel.add(fn)
+                    added = True
+            for k, t in ov_src.items():
+                if k not in ovsel and defines(t, ident):
+                    ovsel[k] = ov_all[k]
+                    added = True
+        if not added:
+            break
+    log.append("minimal build failed too (%d harness files, %d overlay files selected):" % (len(sel), len(ovsel)))
+    return False, "\n".join(log) + "\n" + out[-3000:] + "\n--- full build log ---\n" + full_log[-2000:]
+
+
 def run_suite(suite, seed, n, tier, rundir):
     """returns dict(evaluations, distinct_nontrivial, tags, samples, rule, mismatches:[...], propfails:[...], error)"""
     os.makedirs(rundir, exist_ok=True)
@@ -448,6 +518,9 @@ def run_check(prop, tier, seed):
 
     # 3. harness (private build for this run)
     ok, out, dt = build_corr(os.path.join(rundir, "gobuild"))
+    if not ok and os.path.exists(os.path.join(rundir, "gobuild", "overlay.json")):
+        ok, out = build_corr_min(prop, os.path.join(rundir, "gobuild"), out)
+        notes.append("harness: " + out.splitlines()[-1 if ok else 0][:300])
     suites_res = []
     if not ok:
         path = write_replay(prop, "harness-build", dict(what="correspondence harness no longer builds against /repo", log=out[-4000:]))
